@@ -98,10 +98,30 @@ def match_date(date, date_pattern):
 def match_date_range(date, date_range):
     """
     Match a specific date, a four-tuple with no special values, with a DateRange
-    object which as a start date and end date.
+    object which as a start date and end date.  An unspecified start date or
+    end date (year, month and day all 255) leaves that side of the range open.
     """
-    return (date[:3] >= date_range.startDate[:3]) \
-        and (date[:3] <= date_range.endDate[:3])
+    start_date = date_range.startDate[:3]
+    end_date = date_range.endDate[:3]
+    start_year, start_month, start_day = start_date
+    end_year, end_month, end_day = end_date
+
+    # check the start date
+    if (start_year == 255) and (start_month == 255) and (start_day == 255):
+        # unspecified, no lower limit
+        pass
+    elif date[:3] < start_date:
+        return False
+
+    # check the end date
+    if (end_year == 255) and (end_month == 255) and (end_day == 255):
+        # unspecified, no upper limit
+        pass
+    elif date[:3] > end_date:
+        return False
+
+    # all tests pass
+    return True
 
 #
 #   match_weeknday
